@@ -34,13 +34,13 @@ class Vclean(ViewMixin):
     data = 5
 
     def pub1(self):
-        return 'Vclean.pub1'
+        return type(self).__name__ + '.pub1'           # the class the view was registered as (Vclean or a view deriving from it)
 
     def pub2(self):
-        return 'Vclean.pub2'
+        return type(self).__name__ + '.pub2'
 
     def _hidden(self):
-        return 'Vclean._hidden'
+        return type(self).__name__ + '._hidden'
 
 
 class Valias(ViewMixin):
@@ -68,14 +68,30 @@ class Vmixin(ViewMixin, Helpers):
         return 'Vmixin.own'
 
 
-FUNCS = {'f1': f1, 'f2': f2, '_hidden_fn': _hidden_fn}
-CLASSES = {'Vclean': Vclean, 'Valias': Valias, 'Vmixin': Vmixin}
+def _factory_made():
+    return 'renamed'
+
+
+_factory_made.__name__ = 'renamed'          # a name assigned by a factory / old-style decorator: __qualname__ still says _factory_made
+
+
+class Vderived(Vclean):
+    """a view deriving from another (already registered) view: it exposes the inherited public methods and its own"""
+
+    def extra(self):
+        return 'Vderived.extra'
+
+
+FUNCS = {'f1': f1, 'f2': f2, '_hidden_fn': _hidden_fn, 'renamed': _factory_made}
+CLASSES = {'Vclean': Vclean, 'Valias': Valias, 'Vmixin': Vmixin, 'Vderived': Vderived}
 # members as dir(cls) lists them (sorted), declared here rather than introspected
 CLASS_MEMBERS = {
     'Vclean': [{'attr': '_hidden', 'target': '_hidden'}, {'attr': 'data', 'target': None}, {'attr': 'pub1', 'target': 'pub1'},
                {'attr': 'pub2', 'target': 'pub2'}],
     'Valias': [{'attr': '_priv', 'target': '_priv'}, {'attr': 'other', 'target': 'other'}, {'attr': 'pub', 'target': '_priv'}],
     'Vmixin': [{'attr': '_hp', 'target': '_hp'}, {'attr': 'helper_pub', 'target': 'helper_pub'}, {'attr': 'own', 'target': 'own'}],
+    'Vderived': [{'attr': '_hidden', 'target': '_hidden'}, {'attr': 'data', 'target': None}, {'attr': 'extra', 'target': 'extra'},
+                 {'attr': 'pub1', 'target': 'pub1'}, {'attr': 'pub2', 'target': 'pub2'}],
 }
 PREFIXES = [None, '', 'a', 'a.b']
 
@@ -90,7 +106,7 @@ def gen_ops(rng, depth, allow_alias):
     for _ in range(rng.randrange(0, 4)):
         k = rng.randrange(6 if depth > 0 else 5)
         if k == 0:
-            e = {'op': 'add', 'r': e, 'fn': rng.choice(['f1', 'f2', '_hidden_fn']), 'name': None}
+            e = {'op': 'add', 'r': e, 'fn': rng.choice(['f1', 'f2', '_hidden_fn', 'renamed']), 'name': None}
         elif k == 1:
             e = {'op': 'add', 'r': e, 'fn': rng.choice(['f1', 'f2']), 'name': rng.choice(['x', 'f1', 'y.z', '', 'f2'])}
         elif k == 2:
@@ -100,7 +116,7 @@ def gen_ops(rng, depth, allow_alias):
         elif k == 3:
             e = {'op': 'view', 'r': e, 'cls': 'Vclean', 'prefix': rng.choice([None, '', 'v', 'v.w'])}
         elif k == 4:
-            cls = 'Valias' if allow_alias and rng.random() < 0.3 else rng.choice(['Vclean', 'Vmixin'])
+            cls = 'Valias' if allow_alias and rng.random() < 0.3 else rng.choice(['Vclean', 'Vmixin', 'Vderived'])
             e = {'op': 'view', 'r': e, 'cls': cls, 'prefix': rng.choice([None, 'v'])}
         else:
             e = {'op': 'merge', 'r': e, 'other': gen_ops(rng, depth - 1, allow_alias)}
@@ -117,6 +133,8 @@ def all_small(maxops):
         lambda e: {'op': 'view', 'r': e, 'cls': 'Vclean', 'prefix': None},
         lambda e: {'op': 'view', 'r': e, 'cls': 'Vclean', 'prefix': 'v'},
         lambda e: {'op': 'view', 'r': e, 'cls': 'Vmixin', 'prefix': None},
+        lambda e: {'op': 'view', 'r': e, 'cls': 'Vderived', 'prefix': 'd'},
+        lambda e: {'op': 'add', 'r': e, 'fn': 'renamed', 'name': None},
         lambda e: {'op': 'merge', 'r': e, 'other': {'op': 'add', 'r': new('b'), 'fn': 'f1', 'name': None}},
         lambda e: {'op': 'merge', 'r': e, 'other': {'op': 'merge', 'r': new('c'), 'other': {'op': 'add', 'r': new('d'), 'fn': 'f2', 'name': 'g'}}},
     ]
@@ -143,6 +161,11 @@ def attach(e, rng):
             root = {'op': 'view', 'r': root, 'cls': 'Vclean', 'prefix': None, 'via': 'dispatcher'}
         else:
             root = {'op': 'merge', 'r': root, 'other': gen_ops(rng, 1, False), 'via': 'dispatcher'}
+    if rng.random() < 0.3:
+        # the SAME registry object attached, one of its names overridden on the dispatcher and a method added to the registry,
+        # then attached again: the second attach registers everything the registry holds now, replacing the override
+        reg = {'op': 'add', 'r': new(rng.choice(['a', None, 'a.b'])), 'fn': 'f1', 'name': rng.choice([None, 'g'])}
+        root = {'op': 'reattach', 'r': root, 'reg': reg, 'override': rng.choice(['f2', 'renamed']), 'late': rng.choice(['f2', None]), 'via': 'dispatcher'}
     if rng.random() < 0.35:
         # ONE add_methods(...) call with mixed arguments (functions, Method objects, registries): handled in call order
         items = []
@@ -167,6 +190,13 @@ def desugar(e):
         e['r'] = desugar(e['r'])
     if 'other' in e:
         e['other'] = desugar(e['other'])
+    if e['op'] == 'reattach':
+        reg = desugar(e['reg'])
+        first = list(_spec(reg)[1])[0]
+        r = {'op': 'merge', 'r': e['r'], 'other': reg, 'via': 'dispatcher'}
+        r = {'op': 'add', 'r': r, 'fn': e['override'], 'name': first, 'via': 'dispatcher'}
+        reg2 = reg if not e['late'] else {'op': 'add', 'r': reg, 'fn': e['late'], 'name': 'late'}
+        return {'op': 'merge', 'r': r, 'other': reg2, 'via': 'dispatcher'}
     if e['op'] == 'mixed':
         r = e['r']
         for it in e['items']:
@@ -193,7 +223,7 @@ def edits(name):
 def uses_alias(e):
     if not isinstance(e, dict):
         return False
-    if e.get('op') == 'mixed':
+    if e.get('op') in ('mixed', 'reattach'):
         return uses_alias(desugar(e))
     if e.get('op') == 'view' and e.get('cls') == 'Valias':
         return True
@@ -204,7 +234,7 @@ def uses_method_obj_in_prefixed(e):
     """a Method object added (via add_methods) to a registry whose own prefix is truthy"""
     if not isinstance(e, dict) or 'op' not in e:
         return False
-    if e['op'] == 'mixed':
+    if e['op'] in ('mixed', 'reattach'):
         return uses_method_obj_in_prefixed(desugar(e))
     if e['op'] == 'add_methods' and any('mname' in it for it in e['items']) and _own_prefix(e):
         return True
@@ -240,7 +270,7 @@ def finish(c):
     for n in list(names)[:6]:
         ed = sorted(edits(n))
         probes |= set(ed[:8]) | {e for e in ed if e != e.strip()}
-    probes |= {'helper_pub', '_hp', 'own', 'v._hp', 'a.helper_pub', '_hidden', '_priv', 'Vclean._hidden', 'v._hidden', 'a._hidden', 'a.b._hidden', 'data', 'a.data', 'pub', 'v.pub',
+    probes |= {'renamed', '_factory_made', 'a.renamed', 'extra', 'd.extra', 'd.pub1', 'v.extra', 'helper_pub', '_hp', 'own', 'v._hp', 'a.helper_pub', '_hidden', '_priv', 'Vclean._hidden', 'v._hidden', 'a._hidden', 'a.b._hidden', 'data', 'a.data', 'pub', 'v.pub',
                '__methods__', '__init__', 'f1', 'a.f1', 'a.a.f1', 'nosuch', ''}
     c['probes'] = sorted(probes)
     return c
@@ -317,6 +347,13 @@ def build(e, d):
             other = build(e['other'], None)
             SOURCES.append((e['other'], other))
             d.add_methods(other)
+        elif op == 'reattach':
+            reg = build(e['reg'], None)
+            d.add_methods(reg)
+            d.add(FUNCS[e['override']], list(_spec(desugar(e['reg']))[1])[0])
+            if e['late']:
+                reg.add(FUNCS[e['late']], 'late')
+            d.add_methods(reg)
         elif op == 'mixed':
             args = []
             for it in e['items']:
@@ -359,7 +396,7 @@ def run_impl(c):
             r = (S.loop().run_until_complete(d.dispatch(text)) if is_async else d.dispatch(text))
             doc = json.loads(r[0])
             if 'result' in doc:
-                probes.append({'name': name, 'target': doc['result'].replace('Vclean.', 'Vclean.').replace('Valias.', 'Valias.')})
+                probes.append({'name': name, 'target': doc['result']})
             else:
                 probes.append({'name': name, 'target': None, 'code': doc['error']['code']})
         # a registry merged into another one is only read: at the end it still holds exactly its own registrations
